@@ -266,5 +266,7 @@ func genC17(tier string) []Scenario {
 			out = append(out, sc2.scenario())
 		}
 	}
+	// error Results returned from deep inside large batches keep their state as well
+	sizeSweep(&out, "styles-batch", nil)
 	return out
 }
